@@ -1325,6 +1325,12 @@ func (loader *Loader) resolvePathItemRef(doc *T, pathItem *PathItem, documentPat
 			}
 			*pathItem = resolved
 		}
+		if pathItem.Ref != "" && pathItem.isEmpty() {
+			// the target is itself a reference: follow the chain from the target's document
+			if err = loader.resolvePathItemRef(doc, pathItem, documentPath); err != nil {
+				return
+			}
+		}
 		pathItem.Ref = ref
 		defer loader.unvisitRef(key, pathItem)
 	}
